@@ -58,7 +58,7 @@ func TestC13(t *testing.T) {
 	r := mon.NewRunner(t, "C13")
 	rnd := r.Rand()
 	var cases []mon.CaseSpec
-	for i := 0; i < r.Pick(1500, 15000); i++ {
+	for i := 0; i < r.Pick(1500, 90000); i++ {
 		n := 1 + rnd.Intn(4)
 		sp := spec{Kind: "vt", Socks: n, Steps: 4 + rnd.Intn(9), Yield: rnd.Intn(2) == 0}
 		for j := 0; j < n; j++ {
@@ -70,7 +70,7 @@ func TestC13(t *testing.T) {
 	reals := []string{"inproc", "tcp", "ipc", "ws", "tls+tcp", "wss"}
 	// real transports: multi-peer patterns only — with PAIR a reconnecting client can be refused while
 	// the previous connection is still being torn down, which would desynchronise script and connections
-	for i := 0; i < r.Pick(300, 3000); i++ {
+	for i := 0; i < r.Pick(300, 12000); i++ {
 		sp := spec{Kind: "real", Tran: reals[i%len(reals)], Protos: []string{[]string{"bus", "star", "rep", "pull"}[rnd.Intn(4)]}, Steps: 3 + rnd.Intn(5), Yield: rnd.Intn(2) == 0}
 		cases = append(cases, mon.CaseSpec{Name: "real/" + sp.Tran, Spec: sp})
 	}
